@@ -16,20 +16,25 @@ Fixpoint code_iter (sum : bool) (parts : list (nat * nat)) (k : nat) (st : Z * Z
 Definition np_of (parts : list (nat * nat)) : list nat := map fst parts.
 Definition nm_of (parts : list (nat * nat)) : list nat := map (fun p => 3 * snd p) parts.
 
+(* When the source could not be translated, Gen/C08_code.v says [translated = false] and holds placeholders: the
+   premise is then false and [untranslated] closes the goal; every later sentence is written [all: ...] so that it is
+   a no-op in that case (the obligations are vacuous and the run says so). *)
+Ltac untranslated Ht := try solve [vm_compute in Ht; discriminate Ht].
+
 Lemma iter_shift sum : forall parts k a b,
   translated = true -> k <= length parts ->
   code_iter sum parts k (a, b) =
   ((a + Z.of_nat (par_index sum (np_of parts) k) - 2)%Z, (b + Z.of_nat (mag_offset (nm_of parts) k))%Z).
 Proof.
-  intros parts k a b Ht. first [ now (vm_compute in Ht; discriminate Ht) | idtac ]. clear Ht. revert k a b.
-  induction parts as [|[n m] r IH]; intros k a b Hk.
-  - destruct k; [|simpl in Hk; lia]. simpl. f_equal; lia.
-  - destruct k as [|k'].
-    + simpl. f_equal; lia.
-    + simpl in Hk. cbn [code_iter fst snd]. unfold code_advance. rewrite IH by lia.
-      cbn [np_of nm_of map fst snd par_index mag_offset]. unfold blen.
-      fold (np_of r). fold (nm_of r).
-      destruct sum; f_equal; lia.
+  intros parts k a b Ht. untranslated Ht.
+  all: clear Ht; revert k a b.
+  all: induction parts as [|[n m] r IH]; intros k a b Hk;
+    [ destruct k; [|simpl in Hk; lia]; simpl; f_equal; lia
+    | destruct k as [|k'];
+      [ simpl; f_equal; lia
+      | simpl in Hk; cbn [code_iter fst snd]; unfold code_advance; rewrite IH by lia;
+        cbn [np_of nm_of map fst snd par_index mag_offset]; unfold blen;
+        fold (np_of r); fold (nm_of r); destruct sum; f_equal; lia ] ].
 Qed.
 
 Lemma par_index_ge2 sum : forall np k, 2 <= par_index sum np k.
@@ -41,13 +46,12 @@ Theorem code_iterator_is_model sum parts k : translated = true -> k <= length pa
   code_iter sum parts k (code_init spin) =
   (Z.of_nat (par_index sum (np_of parts) k), Z.of_nat (total sum (np_of parts) + 2 + 4 + mag_offset (nm_of parts) k)).
 Proof.
-  intros Ht Hk spin.
-  assert (Hs : spin = Z.of_nat (total sum (np_of parts) + 2)).
-  { revert Ht. unfold spin, code_spin_index. intros Ht. first [ now (vm_compute in Ht; discriminate Ht) | lia ]. }
-  split; [exact Hs|].
-  unfold code_init. rewrite (iter_shift sum parts k _ _ Ht Hk). rewrite Hs.
-  pose proof (par_index_ge2 sum (np_of parts) k) as H2.
-  f_equal; lia.
+  intros Ht Hk spin. untranslated Ht.
+  all: assert (Hs : spin = Z.of_nat (total sum (np_of parts) + 2)) by (unfold spin, code_spin_index; lia).
+  all: split; [exact Hs|].
+  all: unfold code_init; rewrite (iter_shift sum parts k _ _ Ht Hk); rewrite Hs.
+  all: pose proof (par_index_ge2 sum (np_of parts) k) as H2.
+  all: f_equal; lia.
 Qed.
 
 (* the slices taken at part k *)
@@ -62,6 +66,6 @@ Theorem code_slices_are_model (sum : bool) (pi mi n m spin nvalues nw : nat) : t
       nvalues; nvalues + 2 * nw;                            (* the shared weight vector *)
       pi + (if sum then 1 else 0) - 2; pi + (if sum then 1 else 0) - 2 + n ].   (* its rows of the lengths/offsets table *)
 Proof.
-  intros Ht Hp. first [ now (vm_compute in Ht; discriminate Ht) | idtac ].
-  unfold code_slices. cbn [map]. destruct sum; repeat (f_equal; try lia).
+  intros Ht Hp. untranslated Ht.
+  all: unfold code_slices; cbn [map]; destruct sum; repeat (f_equal; try lia).
 Qed.
